@@ -1,6 +1,6 @@
 (* C08 — no input line is lost, reordered or altered; output keeps pace with input. *)
 From WD Require Import Base Wire Protocol Conn Color LetterId Matcher MatcherParse Show Session.
-From WD Require Import ControllerProofs SessionProofs.
+From WD Require Import ControllerProofs SessionProofs IsolationRuns StreamSpecA StreamSpecB.
 Open Scope Z_scope.
 
 (* the run is a left fold: output for a line is produced by that line's step, before the next
@@ -43,3 +43,35 @@ Proof.
   rewrite Hs, Hd, Hc. reflexivity.
 Qed.
 Print Assumptions C08_message_item.
+
+(* ---- WHOLE STREAMS (Proofs/StreamSpecA/B.v) -------------------------------------------------------------
+   items1 drops connection-opened notices and time-gap separators and keeps everything else;
+   ref_items is what the property demands, computed by a reference resolver that knows nothing of the
+   controller, the notices or the output code: per line, in input order,
+     text line                                  -> its passthrough item (nothing under --supress)
+     message line that resolves                 -> the message item of exactly that message
+     message line whose resolution is refused   -> the refusal text in passthrough shape
+     (RuntimeError: e.g. delete_id of an id never created - outside well-formed streams)
+     message line raising another exception     -> error lines, decoding goes off (excluded by wf_event)
+   Filter `*`, no selection, breakpoint `!`. *)
+Theorem C08_one_item_per_line : forall P on u g evs,
+  forallb line_event evs = true ->
+  map items1 (snd (run P (top0 (MAlways true) (MAlways false) on u g) evs)) = ref_items P on u R0 evs.
+Proof. exact one_item_per_line. Qed.
+Print Assumptions C08_one_item_per_line.
+
+(* nothing lost, duplicated or reordered: exactly one item per line for well-shaped lines *)
+Theorem C08_exactly_one_item : forall P on g evs,
+  forallb line_event evs = true -> forallb wf_event evs = true ->
+  Forall (fun l => List.length l = 1%nat)
+         (map items1 (snd (run P (top0 (MAlways true) (MAlways false) on true g) evs))).
+Proof. exact exactly_one_item_wf. Qed.
+Print Assumptions C08_exactly_one_item.
+
+(* --supress removes exactly the passed-through items *)
+Theorem C08_supress_removes_exactly_passthrough : forall P on g evs,
+  forallb line_event evs = true ->
+  map items1 (snd (run P (top0 (MAlways true) (MAlways false) on false g) evs)) =
+  map drop_pass (map items1 (snd (run P (top0 (MAlways true) (MAlways false) on true g) evs))).
+Proof. exact supress_removes_exactly_passthrough. Qed.
+Print Assumptions C08_supress_removes_exactly_passthrough.
